@@ -1,7 +1,7 @@
 (* C05 — Obfuscated literals evaluate to their original values.
    [run_*] is the decoder the emitted Go code implements (validated against the emitted source and
    the Go compiler by the check), [enc_*] what the generator does with its random choices. *)
-From Verif Require Import Base.Bytes Model.Literals Proofs.LiteralsProofs.
+From Verif Require Import Base.Bytes Model.Flags Model.Literals Model.LinkFlags Proofs.LiteralsProofs Proofs.LinkFlagsProofs.
 From Verif Require Gen.LitConsts.
 Open Scope N_scope.
 
@@ -71,6 +71,20 @@ Proof. vm_compute. reflexivity. Qed.
 Theorem C05_consts : Gen.LitConsts.maxStringJunkBytes <= Gen.LitConsts.MinSize /\ 0 < Gen.LitConsts.minStringJunkBytes.
 Proof. split; vm_compute; [discriminate | reflexivity]. Qed.
 
+(* -ldflags=-X under -literals (computeLinkerVariableStrings): a string variable the linker sets must keep a
+   plain initialiser.  -X=path.name=value selects a variable of the package being compiled exactly when the
+   text before the LAST dot is the package's import path (or "main" for a main package) and the text after
+   it is one of its variables; so import paths containing dots are handled *)
+Theorem C05_linker_var_of_own_package : forall pkg_path pkg_name vars name v,
+  existsb (N.eqb EQ) (pkg_path ++ 46 :: name) = false -> existsb (N.eqb 46) name = false -> mem name vars = true ->
+  linker_var pkg_path pkg_name vars (pkg_path ++ 46 :: name ++ EQ :: v) = Some (name, v).
+Proof. exact linker_var_of_own_package. Qed.
+Theorem C05_linker_var_of_other_package : forall pkg_path pkg_name vars path name v,
+  existsb (N.eqb EQ) (path ++ 46 :: name) = false -> existsb (N.eqb 46) name = false ->
+  beq path pkg_path = false -> beq path s_mainpkg = false ->
+  linker_var pkg_path pkg_name vars (path ++ 46 :: name ++ EQ :: v) = None.
+Proof. exact linker_var_of_other_package. Qed.
+
 Print Assumptions C05_layer_roundtrip.
 Print Assumptions C05_atom_roundtrip.
 Print Assumptions C05_simple_roundtrip.
@@ -81,3 +95,5 @@ Print Assumptions C05_split_roundtrip.
 Print Assumptions C05_wrap_roundtrip.
 Print Assumptions C05_array_roundtrip.
 Print Assumptions C05_consts.
+Print Assumptions C05_linker_var_of_own_package.
+Print Assumptions C05_linker_var_of_other_package.
